@@ -1,26 +1,38 @@
 #!/bin/bash
-# usage: seedcheck.sh [seed ids...]  -- for each seeded change: apply it to a scratch worktree of /repo HEAD, run the check of the
-# property it breaks (and, with ALLPROPS=1, every rule), record which rules report it in seeded/<id>/meta.json (detected_by).
+# usage: seedcheck.sh [seed ids...]  -- for each seeded change: apply it to a scratch worktree of /repo HEAD, run every rule on the
+# changed tree once (-prop ALL) and record in seeded/<id>/meta.json (detected_by) which rules report it; the change counts as
+# reported by the check of its own property when at least one of those rules belongs to that property's rule list
+# (the rule lists come from `bin/frugalvet -describe`, i.e. exactly what `./run.sh <prop>` runs).
 cd "$(dirname "$0")/.."
 wt=${SEED_WT:-/tmp/scratch/seedwt}
 [ -d $wt ] || git -C /repo worktree add -q --detach $wt HEAD
 ids=("$@"); [ ${#ids[@]} -eq 0 ] && ids=($(ls seeded))
+bin/frugalvet -describe > /tmp/scratch/describe_$$.json
 miss=0
 for id in "${ids[@]}"; do
   d=seeded/$id; prop=${id%%-*}
   git -C $wt checkout -q --detach $(git -C /repo rev-parse HEAD) 2>/dev/null; git -C $wt checkout -q -- . ; git -C $wt clean -fdq
   if ! git -C $wt apply "$(readlink -f $d/patch.diff)" 2>/dev/null; then echo "$id: PATCH-DOES-NOT-APPLY"; continue; fi
-  out=$(bin/frugalvet -repo $wt -prop $prop -replaydir /tmp/scratch/seedreplay 2>&1); rc=$?
-  own=$(echo "$out" | grep -o "\(VIOLATED\|UNDECIDED\) \[[^]]*\]" | sed 's/.*\[\(.*\)\]/\1/' | sort -u | tr '\n' ' ')
-  all=$(bin/frugalvet -repo $wt -prop ALL -replaydir /tmp/scratch/seedreplay 2>&1 | grep -o "\(VIOLATED\|UNDECIDED\) \[[^]]*\]" | sed 's/.*\[\(.*\)\]/\1/' | sort -u | tr '\n' ' ')
+  out=$(bin/frugalvet -repo $wt -prop ALL -replaydir /tmp/scratch/seedreplay 2>&1); rc=$?
+  all=$(echo "$out" | grep -o "\(VIOLATED\|UNDECIDED\) \[[^]]*\]" | sed 's/.*\[\(.*\)\]/\1/' | sort -u | tr '\n' ' ')
+  if echo "$out" | grep -q "ANALYSIS-ERROR"; then all="$all ANALYSIS-ERROR"; fi
   git -C $wt checkout -q -- .
-  python3 - "$d/meta.json" "$prop" "$own" "$all" "$rc" <<'PY'
+  own=$(python3 - "$d/meta.json" "$prop" "$all" "$rc" /tmp/scratch/describe_$$.json <<'PY'
 import json,sys
-p,prop,own,allr,rc=sys.argv[1:]
+p,prop,allr,rc,desc=sys.argv[1:]
+rules=[]
+for e in json.load(open(desc))['properties']:
+    if e.get('ID')==prop:
+        rules=e.get('Rules') or []
+allr=allr.split()
+own=[r for r in allr if r in rules or r=='ANALYSIS-ERROR']
 m=json.load(open(p))
-m['detected_by']={'check':prop,'exit_status':int(rc),'rules_of_its_property':own.split(),'all_rules':allr.split()}
+m['detected_by']={'check':prop,'exit_status':1 if own else 0,'rules_of_its_property':own,'all_rules':allr}
 json.dump(m,open(p,'w'),indent=1)
+print(' '.join(own))
 PY
-  if [ -z "$own" ]; then echo "$id: MISSED by check $prop (other rules: ${all:-none})"; miss=$((miss+1)); else echo "$id: $prop exit=$rc rules: $own"; fi
+)
+  if [ -z "$own" ]; then echo "$id: MISSED by check $prop (other rules: ${all:-none})"; miss=$((miss+1)); else echo "$id: $prop exit=1 rules: $own"; fi
 done
+rm -f /tmp/scratch/describe_$$.json
 echo "missed by own property check: $miss"
